@@ -13,6 +13,7 @@ import BV.Proofs.Purity
 import BV.Gen
 import BV.Model.Code39
 import BV.Model.Code93
+import BV.Props.C17
 namespace BV.Props.C15
 open BV BV.Proofs.Purity
 
@@ -59,6 +60,12 @@ theorem C15_table_keys_distinct :
     (Gen.Code39.v_extendedTable.map (·.1)).Nodup ∧ (Gen.Ean.v_encoderTable.map (·.1)).Nodup ∧
     (Gen.Codabar.v_encodingTable.map (·.1)).Nodup ∧ (Gen.Twooffive.v_encodingTable.map (·.1)).Nodup := by
   decide
+
+/-- (c) history-freedom of the shared Reed–Solomon encoders: whatever was encoded before (any sequence of
+    `Encode` calls, i.e. any reachable cache), every call returns what a fresh encoder returns -/
+theorem C15_rs_history_free (f : Model.GF.Field) (reqs : List (List Nat × Nat)) :
+    C17.runEncoder f Model.GF.newEncoder reqs = reqs.map (fun r => Model.GF.rsEncode f r.1 r.2) :=
+  C17.C17_rs_history_independent f Model.GF.newEncoder reqs (C17.C17_newEncoder_inv f)
 
 /-- non-vacuity of (b): a genuinely different order of the Code 93 table -/
 example : Gen.Code93.v_encodeTable.Perm Gen.Code93.v_encodeTable.reverse := (List.reverse_perm _).symm
